@@ -28,6 +28,9 @@ def termination_family():
             "eval": lambda c: ("Ev", c), "group": lambda c: ("Gr", c), "if": lambda c: ("I", L(51, 0), c),
             "case": lambda c: ("C", [(True, c, "x")]), "subshell": lambda c: ("Su", ("S", [("P",), c])),
             "cmdsubst": lambda c: ("Cs", c), "andor": lambda c: ("A", L(52, 0), [(True, c)]),
+            "pipe_last": lambda c: ("Pi", [0], ("Gr", c)),
+            "lastpipe_last": lambda c: ("S", [("O", "l", True), ("Pi", [0, 3], ("Gr", c))]),
+            "lastpipe_loop": lambda c: ("S", [("O", "l", True), ("F", 2, ("Pi", [0], ("Gr", c)))]),
             "func_in_loop": None}
     out = []
     for wn, w in ways.items():
